@@ -32,6 +32,7 @@ use rpki::repository::sigobj::SignedObject;
 use rpki::repository::tal::{Tal, TalInfo};
 use rpki::repository::x509::{Name, Serial, Time, Validity};
 use rpki::uri;
+use super::c04_iter::{self as laws, LawBreak, Laws, Stats};
 use std::fmt::{self, Write as _};
 use std::hint::black_box;
 use std::str::FromStr;
@@ -309,11 +310,15 @@ pub struct Outcome {
     pub validated: bool,
     /// Number of accessor results looked at (iterator items, getters).
     pub touched: u32,
+    /// Iterators of the value under the standard adapters (c04_iter.rs):
+    /// what was compared, and results that differ from `next()` stepping.
+    pub laws: Stats,
+    pub law_breaks: Vec<LawBreak>,
 }
 
 impl Outcome {
     fn ok(sw: Sweep) -> Self {
-        Outcome { ok: true, class: "ok".into(), err_pos: 0, validated: sw.validated, touched: sw.touched }
+        Outcome { ok: true, class: "ok".into(), err_pos: 0, validated: sw.validated, touched: sw.touched, laws: sw.laws.stats, law_breaks: sw.laws.breaks }
     }
 
     fn err_text(text: String) -> Self {
@@ -329,7 +334,7 @@ impl Outcome {
         if c.is_empty() {
             c.push_str("error");
         }
-        Outcome { ok: false, class: c, err_pos: pos, validated: false, touched: 0 }
+        Outcome { ok: false, class: c, err_pos: pos, validated: false, touched: 0, laws: Stats::default(), law_breaks: Vec::new() }
     }
 
     fn err<E: fmt::Display>(e: DecodeError<E>) -> Self {
@@ -373,11 +378,23 @@ pub struct Sweep {
     /// Under Miri: skip Debug / serde formatting of values (interpreting the
     /// formatting machinery costs seconds per object and is not rpki-rs code).
     pub light: bool,
+    /// Iterator adapter laws (c04_iter.rs): budget (iterators per evaluation,
+    /// steps per program, items stepped for the reference), counters, findings.
+    pub laws: Laws,
 }
+
+/// Per evaluation: at most this many iterators go under the adapter plan,
+/// a program may cost at most this many steps on an iterator without any
+/// shortcut, and the reference steps at most this many items. The bounds keep
+/// the cost of the sweep independent of the size of the value (the scaling
+/// laws of c04_scale.rs time the sweep).
+const LAWS_ITERS: u32 = 48;
+const LAWS_WALK: u64 = 4096;
+const LAWS_CAP: usize = 64;
 
 impl Sweep {
     fn new() -> Self {
-        Sweep { touched: 0, validated: false, ber: false, light: false }
+        Sweep { touched: 0, validated: false, ber: false, light: false, laws: if laws::switched_off() { Laws::off() } else { Laws::new(LAWS_ITERS, LAWS_WALK, LAWS_CAP) } }
     }
 
     fn t(&mut self) {
@@ -566,6 +583,7 @@ fn sweep_https(sw: &mut Sweep, u: Option<&uri::Https>) {
 fn sweep_asblocks(sw: &mut Sweep, b: &AsBlocks, fx: &Fixed) {
     sw.see(b.is_empty());
     sw.see(b.asn_count());
+    laws::laws_as(&mut sw.laws, b, false);
     let mut n = 0usize;
     for blk in b.iter() {
         n += 1;
@@ -640,6 +658,7 @@ fn sweep_ipblocks(sw: &mut Sweep, b: &IpBlocks, v4: bool, fx: &Fixed) {
     let iss = if v4 { &fx.iss_v4 } else { &fx.iss_v6 };
     sw.see(b.is_empty());
     let total = b.iter().count();
+    laws::laws_ip(&mut sw.laws, b, v4, false);
     let mut n = 0usize;
     for blk in b.iter() {
         n += 1;
@@ -854,6 +873,7 @@ fn sweep_revoked(sw: &mut Sweep, r: &RevokedCertificates, fx: &Fixed) {
     let mut first: Option<CrlEntry> = None;
     let mut last: Option<CrlEntry> = None;
     let mut n = 0u32;
+    laws::laws_revoked(&mut sw.laws, r);
     for e in r.iter() {
         if first.is_none() {
             first = Some(e);
@@ -928,6 +948,7 @@ fn sweep_octets(sw: &mut Sweep, s: &bcder::OctetString) {
     sw.see(s.as_slice().map(|x| x.len()));
     sw.see(s.iter().count());
     sw.see(s.octets().take(1 << 16).count());
+    laws::laws_octets(&mut sw.laws, s);
     sw.see(s.to_bytes().len());
     sw.enc(s.encode_ref());
     sw.dbg(s);
@@ -942,6 +963,7 @@ fn sweep_mft_content(sw: &mut Sweep, m: &ManifestContent, o: &Opts) {
     sw.see(m.len());
     sw.see(m.is_empty());
     sw.see(m.is_stale());
+    laws::laws_mft(&mut sw.laws, m, &fx.base);
     let mut n = 0usize;
     for item in m.iter() {
         n += 1;
@@ -1026,6 +1048,7 @@ fn sweep_roa(sw: &mut Sweep, r: &Roa, o: &Opts) {
         sw.see(c.as_id());
         sw.see(c.v4_addrs().is_empty());
         sw.see(c.v6_addrs().is_empty());
+        laws::laws_roa(&mut sw.laws, c);
         for (addrs, v4) in [(c.v4_addrs(), true), (c.v6_addrs(), false)] {
             let iss = if v4 { &fx.iss_v4 } else { &fx.iss_v6 };
             for (i, a) in addrs.iter().enumerate() {
@@ -1095,6 +1118,7 @@ fn sweep_aspa(sw: &mut Sweep, a: &Aspa, o: &Opts) {
             black_box(asn);
         }
         sw.see(n == set.len());
+        laws::laws_aspa(&mut sw.laws, c);
         let small = set.to_set();
         sw.see(small.len());
         sw.see(small.is_empty());
@@ -1159,6 +1183,7 @@ fn sweep_rta(sw: &mut Sweep, r: &Rta, o: &Opts) {
 //------------ Sweeps: TAL, keys, CA objects ---------------------------------
 
 fn sweep_tal(sw: &mut Sweep, t: &Tal, o: &Opts) {
+    laws::laws_tal(&mut sw.laws, t);
     for u in t.uris() {
         sw.see(u.is_rsync());
         sw.see(u.is_https());
@@ -1270,6 +1295,10 @@ pub fn evaluate(ep: Ep, data: &[u8], o: &Opts) -> Outcome {
     let fx = o.fixed;
     let mut sw = Sweep::new();
     sw.light = o.light;
+    if o.light {
+        // under Miri the adapter laws have a workload of their own (a handful of cases)
+        sw.laws = Laws::off();
+    }
     sw.ber = matches!(
         ep,
         Ep::MftRelaxed | Ep::RoaRelaxed | Ep::AspaRelaxed | Ep::SigObjRelaxed | Ep::SigMsgRelaxed | Ep::ProvCms | Ep::PubCms
@@ -1594,6 +1623,9 @@ pub fn fuzz_one(group: &[Ep], data: &[u8]) {
         let out = evaluate(ep, body, &opts);
         let (peak, _) = crate::alloc::window_peak(base);
         black_box(out.touched);
+        if let Some(b) = out.law_breaks.first() {
+            panic!("C04 iterator adapter disagrees with next() stepping: ep={} {} / {}: {}", ep.name(), b.iter, b.adapter, b.text);
+        }
         let budget = heap_budget(body.len());
         if peak > budget {
             panic!("C04 heap budget exceeded: ep={} len={} peak={} budget={}", ep.name(), body.len(), peak, budget);
